@@ -38,6 +38,11 @@ Compatible(a, b) ==
               LET da == IF a.b = "Decimal" THEN Down(a) ELSE (IF a.ps = <<>> /\ a.es = <<>> THEN a.b ELSE "other-a")
                   db == IF b.b = "Decimal" THEN Down(b) ELSE (IF b.ps = <<>> /\ b.es = <<>> THEN b.b ELSE "other-b")
               IN da = db /\ da # "same"
+  ELSE IF a.b = "Enum" \/ b.b = "Enum"
+         THEN \* "Enum" is not a server type: it stands for the inferring enum target (proto.ColEnum), which adopts the
+              \* enum of either width the server names (and is offered, but may refuse, the plain integers)
+              LET o == IF a.b = "Enum" THEN b ELSE a IN
+              o.b \in {"Enum", "Enum8", "Enum16"} \/ IsPlain(o, "Int8") \/ IsPlain(o, "Int16")
   ELSE IF a.b # b.b THEN FALSE
   ELSE IF a.b \in {"Enum8", "Enum16"} THEN TRUE                 \* the members are the server's business
   ELSE IF a.b \in {"Array", "Nullable", "LowCardinality"} THEN Compatible(a.es[1], b.es[1])
